@@ -614,6 +614,30 @@ impl Real {
                     Err(e) => err_line(&e),
                 }
             }
+            ["set_tracers", ms, n] => {
+                // a master key with more tracers (a higher tracing level) than `Covercrypt::setup` creates: copies of the
+                // first tracer are appended in the wire form (the format allows any number; the API offers no way to
+                // change the level), so that the level-generic code is exercised: identifiers with n markers, n traps
+                let (Some(i), Ok(n)) = (handle('M', ms), n.parse::<usize>()) else { return "bad-op".into() };
+                let Some(Some(m)) = self.msks.get(i) else { return "err NoSuchHandle".into() };
+                let bytes = m.serialize().unwrap().to_vec();
+                let off = crate::wire::sz::SK;
+                let nt = bytes[off] as usize;
+                if nt >= 128 || n >= 128 || n < nt { return "bad-op".into(); }
+                let tl = crate::wire::sz::SK + crate::wire::sz::PK;
+                let end = off + 1 + nt * tl;
+                let mut new = bytes[..off].to_vec();
+                new.push(n as u8);
+                new.extend_from_slice(&bytes[off + 1..end]);
+                for _ in nt..n {
+                    new.extend_from_slice(&bytes[off + 1..off + 1 + tl]);
+                }
+                new.extend_from_slice(&bytes[end..]);
+                match MasterSecretKey::deserialize(&new) {
+                    Ok(x) => { self.msks[i] = Some(x); format!("ok tr={n}") }
+                    Err(e) => err_line(&e),
+                }
+            }
             ["roundtrip", h] => {
                 if let Some(i) = handle('M', h) {
                     if let Some(Some(m)) = self.msks.get(i) {
@@ -960,6 +984,26 @@ impl Real {
                         ),
                     },
                     _ => "err NoSuchHandle".into(),
+                }
+            }
+            ["ser_clr", us, hs, ad] => {
+                // the cleartext header a key obtains from an encrypted one: announced length, equality after a round trip
+                // (absent = empty metadata); the model is given the bytes
+                self.model_line = Some("noop".into());
+                let (Some(i), Some(j), Some(ad)) = (handle('U', us), handle('H', hs), opt_bytes(ad)) else { return "bad-op".into() };
+                let (Some(Some(u)), Some(Some((h, _)))) = (self.usks.get(i), self.hdrs.get(j)) else { return "bad-op".into() };
+                match h.decrypt(&self.cc, u, ad.as_deref()) {
+                    Ok(Some(c)) => {
+                        let b = c.serialize().unwrap().to_vec();
+                        let len_ok = c.length() == b.len();
+                        let rt = match cosmian_cover_crypt::CleartextHeader::deserialize(&b) {
+                            Ok(x) => x.secret == c.secret && x.metadata.clone().unwrap_or_default() == c.metadata.clone().unwrap_or_default(),
+                            Err(_) => false,
+                        };
+                        self.model_line = Some(format!("wire clr {} x{}", crate::util::CFG, hex(&b)));
+                        if len_ok { format!("ok len={} rt={}", b.len(), rt as u8) } else { format!("ok len={}!={} rt={}", c.length(), b.len(), rt as u8) }
+                    }
+                    _ => "bad-op".into(),
                 }
             }
             ["hdr_tamper", hs, hd, op, arg] => {
